@@ -50,7 +50,11 @@ fn desc_variants() -> Vec<(&'static str, TargetDescription)> {
     unknown.insert(HashAlgorithm::Unknown("md5".into()), HashValue::new(vec![0xab, 0xcd]));
     let mut known_and_unknown = world::desc(1);
     known_and_unknown.insert(HashAlgorithm::Unknown("blake2b-256".into()), HashValue::new(vec![1; 32]));
-    vec![("sha256", world::desc(1)), ("sha256+sha512", world::desc2(1)), ("empty-digest", empty_digest), ("no-algorithms", TargetDescription::new()), ("unknown-algorithm", unknown), ("sha256+unknown-algorithm", known_and_unknown)]
+    let mut upper = TargetDescription::new();
+    upper.insert(HashAlgorithm::Unknown("SHA256".into()), HashValue::new(vec![0x11; 32]));
+    let mut both_cases = world::desc(1);
+    both_cases.insert(HashAlgorithm::Unknown("Sha256".into()), HashValue::new(vec![0x22; 32]));
+    vec![("upper-case-algorithm-name", upper), ("sha256+mixed-case-name", both_cases), ("sha256", world::desc(1)), ("sha256+sha512", world::desc2(1)), ("empty-digest", empty_digest), ("no-algorithms", TargetDescription::new()), ("unknown-algorithm", unknown), ("sha256+unknown-algorithm", known_and_unknown)]
 }
 
 pub fn links(thorough: bool) -> Vec<(String, LinkMetadata)> {
@@ -270,7 +274,7 @@ fn value_roundtrip<T: Serialize + DeserializeOwned + PartialEq>(acc: &mut Acc, t
             Ok(t2) if t2 == txt => acc.outcome("roundtrip-identical"),
             Ok(t2) => {
                 acc.outcome("bytes-differ");
-                let key = if name.contains("sha256+sha512") || name.contains("sha256+unknown") { format!("digest-map-order-unstable:{typ}") } else { format!("bytes-differ:{typ}:{}", class_of(name)) };
+                let key = if name.contains("sha256+sha512") || name.contains("sha256+unknown") || name.contains("sha256+mixed-case") { format!("digest-map-order-unstable:{typ}") } else { format!("bytes-differ:{typ}:{}", class_of(name)) };
                 acc.violation(&key, "serialize(parse(serialize(v))) is not byte-identical to serialize(v)", || {
                     let mut w = witness(&txt);
                     w["second"] = json!(t2);
@@ -384,6 +388,7 @@ pub fn documents(thorough: bool) -> Vec<(String, String)> {
     docs.push(("link/text:byproducts-typed-only".into(), r#"{"_type":"link","name":"l","materials":{},"products":{},"environment":{},"byproducts":{"return-value":3,"stdout":"o","stderr":"e"},"command":["x"]}"#.into()));
     docs.push(("link/text:byproducts-non-string-extra".into(), r#"{"_type":"link","name":"l","materials":{},"products":{},"environment":{},"byproducts":{"extra":5},"command":[]}"#.into()));
     docs.push(("link/text:uppercase-digest".into(), r#"{"_type":"link","name":"l","materials":{"p":{"sha256":"AB"}},"products":{},"environment":{},"byproducts":{},"command":[]}"#.into()));
+    docs.push(("link/text:upper-case-algorithm".into(), r#"{"_type":"link","name":"l","materials":{"p":{"SHA256":"ab"}},"products":{"p":{"sha256":"aa","SHA256":"bb","Sha512":"cc"}},"environment":{},"byproducts":{},"command":[]}"#.into()));
     docs.push(("link/text:unknown-algorithm".into(), r#"{"_type":"link","name":"l","materials":{"p":{"md5":"ab"}},"products":{},"environment":{},"byproducts":{},"command":[]}"#.into()));
     docs.push(("layout/text:threshold-float".into(), r#"{"_type":"layout","expires":"2031-06-01T00:00:00Z","readme":"","keys":{},"inspect":[],"steps":[{"_type":"step","name":"s","threshold":1.0,"expected_materials":[],"expected_products":[],"pubkeys":[],"expected_command":[]}]}"#.into()));
     docs.push(("layout/text:threshold-big".into(), r#"{"_type":"layout","expires":"2031-06-01T00:00:00Z","readme":"","keys":{},"inspect":[],"steps":[{"_type":"step","name":"s","threshold":4294967296,"expected_materials":[],"expected_products":[],"pubkeys":[],"expected_command":[]}]}"#.into()));
@@ -566,6 +571,7 @@ pub fn run(tier: Tier) -> i32 {
     acc.note_n("text_documents", docs.len() as u64);
     acc.sample(|| json!({"kind": "value", "type": "LinkMetadata", "value": ls[5].0, "serialized": serde_json::to_string(&ls[5].1).unwrap()}));
     acc.sample(|| json!({"kind": "text", "document": docs[docs.len() - 3].0, "text": docs[docs.len() - 3].1}));
+    crate::envprobe::judge(&mut acc, "C16:", &mut c.extra);
     c.acc = acc;
     c.rule = "value leg: every ArtifactRule form (6 kinds x 7 patterns incl. keyword-like ones; MATCH x 5 source x 4 destination prefixes x 2 targets x 4 step names), steps/inspections (thresholds 0,1,u32::MAX x 0..2 pubkeys x 3 commands), layouts (all 16 key-table subsets over 4 key types, readme strings, expiry grid 0001..9999), links (0..2 artifacts x 4 digest-map shapes, 4 environments, 4 commands, all byproduct member combinations incl. reserved names as extra members, name strings), signed blocks with 0..3 signatures; each compact and pretty: parse(ser(v)) == v and ser(parse(ser(v))) == ser(v). Text leg: the same documents as text plus text-only variants; accepted documents must reproduce rule arrays, thresholds, digests, key material, commands, byproducts, environment. distinct_nontrivial = rule forms + link values + layout values".into();
     c.bound_completed = format!("complete within the alphabets (strings <= {})", if thorough { 2 } else { 1 });
